@@ -105,6 +105,36 @@ def main() -> int:
         if pairs != exp:
             spec_failures.append({"suite": "clause-" + clause, "sql": rec["sql"], "metadata": rec["metadata"], "impl_pairs": pairs, "expected_pairs": exp,
                                   "spec": "metadata refines column attribution exactly as the property states"})
+    # ---- the same clauses on a provider object that has been used before -------------------------------------
+    # what the provider answers is its own catalog, whatever earlier runs with the same object wrote or read
+    from sqllineage.runner import LineageRunner
+    from sqllineage.core.metadata.dummy import DummyMetaDataProvider
+    priming = ["create table s1.t1 as select pa, pb from s9.src;\ninsert into s9.x select * from s1.t1",
+               "create table s9.stage as select pa, pb from s1.t1;\ninsert into s9.x select * from s9.stage;\ninsert into s9.y select pa from s9.stage p join s1.t2 q on 1 = 1",
+               "insert into s1.t1 select pz from s9.src;\ninsert into s9.x select * from s1.t1;\ninsert into s3.out1 select * from s1.t2"]
+    reused_recs = [x for x, _, _ in sc[:: (3 if quick else 1)]] + \
+        [{"sql": "insert into s3.out1 select * from s9.stage", "dialect": "ansi", "metadata": {"s1.t1": ["ca"]}, "config": {}},
+         {"sql": "insert into s3.out1 select pa from s9.stage p join s1.t1 q on 1 = 1", "dialect": "ansi", "metadata": {"s1.t1": ["ca"]}, "config": {}}]
+    fresh = t2tie.summaries(reused_recs)
+    for rec, want in zip(reused_recs, fresh):
+        prov = DummyMetaDataProvider(dict(rec["metadata"]))
+        for ps in priming:
+            try:
+                LineageRunner(ps, metadata_provider=prov)._eval()
+            except Exception:
+                pass
+        try:
+            lr = LineageRunner(rec["sql"], metadata_provider=prov)
+            lr._eval()
+            got1 = t2tie.summary(lr)
+        except Exception as e:
+            got1 = "ERR:" + type(e).__name__
+        ck.count()
+        dist["reused_provider"] = dist.get("reused_provider", 0) + 1
+        if got1 != want:
+            spec_failures.append({"suite": "reused-provider", "sql": rec["sql"], "metadata": rec["metadata"], "earlier_scripts": priming,
+                                  "with_used_provider": got1, "with_fresh_provider": want,
+                                  "spec": "known tables expand to exactly their catalog columns and unknown tables get the no-metadata answer, also on a provider object that earlier runs have used"})
     # ---- tie with metadata ---------------------------------------------------------------------------------
     tie_recs = recs[:: (7 if quick else 3)] + [x for x, _, _ in sc] + gen_scripts.gen_records(r, 60 if quick else 600)
     for x in t2tie.run_scripts(tie_recs):
@@ -117,8 +147,6 @@ def main() -> int:
             disagreements.append({"suite": "T2-metadata", "sql": x["rec"]["sql"], "metadata": x["rec"].get("metadata"),
                                   "impl": a[max(0, k - 200):k + 400], "model": b[max(0, k - 200):k + 400]})
     # ---- recorded findings ------------------------------------------------------------------------------------
-    from sqllineage.runner import LineageRunner
-    from sqllineage.core.metadata.dummy import DummyMetaDataProvider
     for f in load_known():
         if f["property"] != "C13" or f["status"] != "known" or "replay" not in f:
             continue
@@ -157,7 +185,7 @@ def main() -> int:
                 "every clause of the property was evaluated on the implementation for every generated (statement, assignment); no failing input")
     return ck.finish(rule="%d generated statements x 3-6 random assignments of (known with columns | unknown) to 6 tables + one provider that knows none of them; "
                           "clause scenarios: SELECT * (4 statement shapes x 3 column sets), unqualified column (3x3 lists/lacks/unknown x join style), target "
-                          "positions (3 list lengths), each with lower- and upper-case metadata names; non-trivial = distinct (SQL, assignment)" % n)
+                          "positions (3 list lengths), each with lower- and upper-case metadata names, and again on provider objects used by earlier runs; non-trivial = distinct (SQL, assignment)" % n)
 
 
 if __name__ == "__main__":
